@@ -493,6 +493,7 @@ wait:
 	finalCollected := map[string]string{}
 	var census map[string]interface{}
 	fsckFlushed, fsckReopened := "not run", "not run"
+	var drainLeft []string
 	if len(stuck) == 0 && !closing {
 		seen := map[string]bool{}
 		var keys [][]byte
@@ -556,6 +557,47 @@ wait:
 					s2.Flush()
 					mp.GC(context.Background(), 50)
 					readAll(s2, finalCollected)
+					if cfg["drain"] == "1" {
+						// C11 over schedules: fillers push the write position at least one file further, then everything is removed and
+						// flushed; after a few cycles every primary file but the current one must be empty or unlinked
+						drainLeft = []string{}
+						var fill [][]byte
+						for i := byte(0); i < 12; i++ {
+							fill = append(fill, []byte{0x12, 6, 8, 8, 8, 0xf0, i, i})
+						}
+						for _, k := range fill {
+							s2.Put(k, bytes.Repeat([]byte{'f'}, 18))
+						}
+						s2.Flush()
+						for _, k := range append(append([][]byte{}, keys...), append(fill, []byte{0x12, 6, 9, 9, 9, 0xfe, 0xfe, 0xfe})...) {
+							s2.Remove(k)
+						}
+						s2.Flush()
+						for i := 0; i < 4; i++ {
+							mp.GC(context.Background(), 50)
+							s2.Flush()
+						}
+						last := -1
+						sizes := map[int]int64{}
+						ents, _ := os.ReadDir(dir)
+						for _, e := range ents {
+							var n int
+							if _, err := fmt.Sscanf(e.Name(), "d.%d", &n); err != nil || e.Name() != fmt.Sprintf("d.%d", n) {
+								continue
+							}
+							if fi, err := e.Info(); err == nil {
+								sizes[n] = fi.Size()
+							}
+							if n > last {
+								last = n
+							}
+						}
+						for n, sz := range sizes {
+							if n != last && sz != 0 {
+								drainLeft = append(drainLeft, fmt.Sprintf("d.%d:%d", n, sz))
+							}
+						}
+					}
 				}
 				s2.Close()
 			}
@@ -578,7 +620,7 @@ wait:
 		outs = append(outs, tout{t.Name, t.Op.Kind, hex.EncodeToString(t.Op.Key), hex.EncodeToString(t.Op.Val), t.Status, t.Res, t.Found, t.Out, t.Start, t.End})
 	}
 	var sb bytes.Buffer
-	json.NewEncoder(&sb).Encode(map[string]interface{}{"threads": outs, "stuck": stuck, "events": log, "final": final, "final_flushed": finalFlushed, "final_reopened": finalReopened, "final_collected": finalCollected, "census": census, "fsck_flushed": fsckFlushed, "fsck_reopened": fsckReopened, "flushes_in_free_run": nflush,
+	json.NewEncoder(&sb).Encode(map[string]interface{}{"threads": outs, "stuck": stuck, "events": log, "final": final, "final_flushed": finalFlushed, "final_reopened": finalReopened, "final_collected": finalCollected, "census": census, "fsck_flushed": fsckFlushed, "fsck_reopened": fsckReopened, "drain_leftover": drainLeft, "flushes_in_free_run": nflush,
 		"quiet_timeouts": quietTimeouts, "quiet_threads": quietThreads, "unfinished_at_free_run": unfinishedAtFreeRun, "must_release": mustRelease, "unreleased": unreleased})
 	os.Stdout.Write(sb.Bytes())
 	if len(stuck) > 0 {
